@@ -14,6 +14,7 @@ import (
 	"math/rand"
 
 	"go.sia.tech/core/consensus"
+	"go.sia.tech/core/types"
 	"verif/harness/internal/fw"
 )
 
@@ -49,7 +50,7 @@ func c07pLeaves(file []byte) [][64]byte {
 
 func runC07P(c *fw.Ctx) {
 	res := c.Res
-	res.Rule = "consensus storageProofRoot/proofRoot/StorageProofLeafHash vs the plain Merkle tree over zero-padded 64-byte segments (independent oracle) and vs the Lean model: every file size 1..(4 leaves + 1 byte) with every leaf index, random sizes up to 2^14 quick / 2^20 thorough bytes with sampled indices; honest proof must fold to the root; wrong index, wrong leaf byte, every proof hash flipped, proof shortened/lengthened must NOT fold to the root. The file size is a trusted input (from the contract): wrong-size runs are only counted. A case is non-trivial when the file has at least 2 leaves."
+	res.Rule = "consensus storageProofRoot/proofRoot/StorageProofLeafHash vs the plain Merkle tree over zero-padded 64-byte segments (independent oracle) and vs the Lean model: every file size 1..(4 leaves + 1 byte) with every leaf index, random sizes up to 2^14 quick / 2^20 thorough bytes with sampled indices; the v1 closures of validateFileContracts are driven through consensus.ValidateTransaction on a hand-built MidState in all three leaf eras (every size 1..4 leaves+1 byte with every index challenged by varying the contract id, larger files statistically; honest accepted except the documented era-2 full-last-leaf quirk, every single corruption rejected, model sp-verify1 agrees); honest proof must fold to the root; wrong index, wrong leaf byte, every proof hash flipped, proof shortened/lengthened must NOT fold to the root. The file size is a trusted input (from the contract): wrong-size runs are only counted. A case is non-trivial when the file has at least 2 leaves."
 	var ops, outs []string
 	model := func(op, out string) {
 		if c.Model != nil {
@@ -192,5 +193,168 @@ func runC07P(c *fw.Ctx) {
 		}
 		one(file, idx, size <= 8192)
 	}
+	c07pV1(c, model)
 	c.Compare(ops, outs)
+}
+
+// c07pV1 drives the REAL v1 closures (lastLeafIndex, storageProofLeaf, storageProofRoot and the
+// "too few proof hashes" guard inside validateFileContracts) through
+// consensus.ValidateTransaction on a hand-built MidState: a transaction that only carries a
+// storage proof, a supplement with the contract (Filesize, FileMerkleRoot chosen here) and the
+// window id. The era is selected by the hardfork heights of the network. The challenged index is
+// derived from (windowID, fcid, filesize) by State.StorageProofLeafIndex, so contract ids are
+// varied until every leaf index of the file has been challenged.
+func c07pV1(c *fw.Ctx, model func(op, out string)) {
+	res := c.Res
+	type eraT struct {
+		name        string
+		tax, spFork uint64
+		code        int
+	}
+	eras := []eraT{{"preTax", 1000, 2000, 0}, {"preStorageProof", 0, 2000, 1}, {"current", 0, 0, 2}}
+	verdict := func(era eraT, fcid types.FileContractID, wid types.BlockID, fs uint64, root c16H, leaf [64]byte, proof []c16H) (string, uint64) {
+		n := &consensus.Network{}
+		n.HardforkTax.Height = era.tax
+		n.HardforkStorageProof.Height = era.spFork
+		n.HardforkV2.AllowHeight = 100000
+		n.HardforkV2.RequireHeight = 200000
+		s := consensus.State{Network: n, Index: types.ChainIndex{Height: 10}}
+		idx := s.StorageProofLeafIndex(fs, wid, fcid)
+		fce := types.FileContractElement{ID: fcid, FileContract: types.FileContract{Filesize: fs, FileMerkleRoot: root, WindowStart: 5, WindowEnd: 50}}
+		ts := consensus.V1TransactionSupplement{StorageProofs: []consensus.V1StorageProofSupplement{{FileContract: fce, WindowID: wid}}}
+		txn := types.Transaction{StorageProofs: []types.StorageProof{{ParentID: fcid, Leaf: leaf, Proof: proof}}}
+		var err error
+		if p, msg := fw.Recover(func() { err = consensus.ValidateTransaction(consensus.NewMidState(s), txn, ts) }); p {
+			return "panic: " + msg, idx
+		}
+		if err == nil {
+			return "1", idx
+		}
+		return "0", idx
+	}
+	sizes := []int{}
+	for size := 1; size <= 4*64+1; size++ {
+		sizes = append(sizes, size)
+	}
+	for t := 0; t < c.Budget(40, 400); t++ { // larger files: indices covered statistically
+		sizes = append(sizes, 4*64+2+c.Rng.Intn(c.Budget(3000, 60000)))
+	}
+	for _, size := range sizes {
+		file := make([]byte, size)
+		c.Rng.Read(file)
+		fs := uint64(size)
+		leaves := c07pLeaves(file)
+		hs := make([]c16H, len(leaves))
+		for i := range leaves {
+			hs[i] = c16OLeaf(leaves[i][:])
+		}
+		root := c16ORoot(hs)
+		for _, era := range eras {
+			// contract ids until every index was challenged (small files) / a few challenges (large)
+			seen := map[uint64]bool{}
+			want := len(hs)
+			tries := 0
+			if len(hs) > 5 {
+				want = 4
+			}
+			for len(seen) < want && tries < 400 {
+				tries++
+				var fcid types.FileContractID
+				var wid types.BlockID
+				c.Rng.Read(fcid[:])
+				c.Rng.Read(wid[:])
+				rng := rand.New(rand.NewSource(c.Rng.Int63()))
+				n := &consensus.Network{}
+				idx := consensus.State{Network: n}.StorageProofLeafIndex(fs, wid, fcid)
+				if seen[idx] {
+					continue
+				}
+				seen[idx] = true
+				i := int(idx)
+				proof := c07pPath(hs, i)
+				name := fmt.Sprintf("v1 era=%s size=%d leaves=%d index=%d", era.name, fs, len(hs), i)
+				rep := func(what string) map[string]any {
+					m := map[string]any{"kind": "sp-v1", "era": era.name, "size": fs, "index": i, "what": what,
+						"fcid": hex.EncodeToString(fcid[:]), "window": hex.EncodeToString(wid[:])}
+					if len(file) <= 4096 {
+						m["file"] = hex.EncodeToString(file)
+					}
+					return m
+				}
+				res.Eval("sp-"+name+" "+c16Hex(root), len(hs) >= 2)
+				res.Count("sp-v1:era:" + era.name)
+				res.Count("sp-v1:leaves:" + c16Bucket(len(hs)))
+				mline := func(leaf [64]byte, pr []c16H, r c16H, got string) {
+					model(fmt.Sprintf("sp-verify1 %d %d %d %s %s %s", era.code, i, fs, hex.EncodeToString(leaf[:]), c16HexList(pr), c16Hex(r)), got)
+				}
+				got, gidx := verdict(era, fcid, wid, fs, root, leaves[i], proof)
+				if gidx != idx {
+					continue
+				}
+				// the documented historical quirk: before HardforkStorageProof the last leaf of a file
+				// whose size is a multiple of 64 is hashed as all zeros
+				quirk := era.code == 1 && i == len(hs)-1 && size%64 == 0
+				if quirk {
+					res.Count("sp-v1:era2-full-last-leaf-quirk:verdict-" + got)
+				} else if got != "1" {
+					res.Violate(fw.Violation{Key: "c07p-v1-honest-proof-rejected:" + era.name, What: "ValidateTransaction rejects the honest v1 storage proof, " + name, Replay: rep("honest"), Expected: "1", Observed: got})
+				}
+				mline(leaves[i], proof, root, got)
+				if quirk {
+					continue
+				}
+				type corr struct {
+					what  string
+					leaf  [64]byte
+					proof []c16H
+					root  c16H
+				}
+				var cs []corr
+				// a byte inside the part of the leaf that the era rule keeps
+				keep := 64
+				if i == len(hs)-1 && size%64 != 0 && era.code != 0 {
+					keep = size % 64
+				}
+				bad := leaves[i]
+				bad[rng.Intn(keep)] ^= 1 << uint(rng.Intn(8))
+				cs = append(cs, corr{"leaf-byte", bad, proof, root})
+				for j := range proof {
+					cs = append(cs, corr{"proof-hash", leaves[i], c16WithFlipped(proof, j, rng), root})
+					cs = append(cs, corr{"proof-shorter", leaves[i], c16Without(proof, j), root})
+				}
+				cs = append(cs, corr{"proof-longer", leaves[i], append(c16CopyHashes(proof), c16RandHash(rng)), root})
+				cs = append(cs, corr{"proof-longer-front", leaves[i], c16InsertAt(proof, 0, c16RandHash(rng)), root})
+				cs = append(cs, corr{"root", leaves[i], proof, c16Flip(root, rng)})
+				for j := range hs { // the leaf and path of another index
+					if j != i && hs[j] != hs[i] && (len(hs) <= 5 || rng.Intn(len(hs)) < 2) {
+						cs = append(cs, corr{"other-index", leaves[j], c07pPath(hs, j), root})
+					}
+				}
+				for k, cr := range cs {
+					g, _ := verdict(era, fcid, wid, fs, cr.root, cr.leaf, cr.proof)
+					res.Eval(fmt.Sprintf("sp-corrupt %s %s %d", name, cr.what, k), true)
+					res.Count("sp-v1:corrupt:" + cr.what)
+					if g != "0" {
+						m := rep(cr.what)
+						m["corrupt_leaf"], m["corrupt_proof"], m["corrupt_root"] = hex.EncodeToString(cr.leaf[:]), c16HexList(cr.proof), c16Hex(cr.root)
+						res.Violate(fw.Violation{Key: "c07p-v1-accepts-corrupt:" + cr.what, What: "ValidateTransaction verdict " + g + " on a corrupted v1 storage proof (" + cr.what + "), " + name, Replay: m, Expected: "0", Observed: g})
+					}
+					if len(hs) <= 5 || k%5 == 0 {
+						mline(cr.leaf, cr.proof, cr.root, g)
+					}
+				}
+			}
+			if len(hs) <= 5 && len(seen) < len(hs) {
+				res.Count("sp-v1:index-not-hit")
+			}
+		}
+	}
+	// empty file: no proof needed in the current era; in the older eras the degenerate index applies
+	for _, era := range eras {
+		var z c16H
+		var leaf [64]byte
+		g, _ := verdict(era, types.FileContractID{1}, types.BlockID{2}, 0, z, leaf, nil)
+		res.Count("sp-v1:empty-file:" + era.name + ":verdict-" + g)
+		model(fmt.Sprintf("sp-verify1 %d 0 0 %s - %s", era.code, hex.EncodeToString(leaf[:]), c16Hex(z)), g)
+	}
 }
